@@ -12,8 +12,8 @@ class C20(Prop):
         if index % 2:
             return lifesim.gen_c20_late(rng)
         if index % 4 == 0:
-            # programs that never create a Source after the start, so that the listed finding F7-source cannot
-            # mask a different violation in the rest of the program
+            # programs that never create a Source after the start (kept from the time when that was a listed known
+            # finding: such a finding must not mask a different violation in the rest of the program)
             return lifesim.gen_c20_registry(rng, late_kinds=tuple(k for k in lifesim.ASSET_KINDS if k != 'source'))
         return lifesim.gen_c20_registry(rng)
 
